@@ -477,6 +477,11 @@ func generateProtectedHeaders(req *signature.SignRequest, protected cose.Protect
 
 	// extended attributes
 	for _, elm := range req.ExtendedSignedAttributes {
+		if !isValidHeaderLabel(elm.Key) {
+			// a COSE header label is an int or a tstr; other Go types may not
+			// even be usable as a map key
+			return &signature.InvalidSignRequestError{Msg: fmt.Sprintf("extended attribute key of type %T is not supported: require int / tstr type", elm.Key)}
+		}
 		if _, ok := protected[elm.Key]; ok {
 			return &signature.InvalidSignRequestError{Msg: fmt.Sprintf("%q already exists in the protected header", elm.Key)}
 		}
@@ -490,6 +495,16 @@ func generateProtectedHeaders(req *signature.SignRequest, protected cose.Protect
 	protected[cose.HeaderLabelCritical] = crit
 
 	return nil
+}
+
+// isValidHeaderLabel checks if the key can be a COSE header label, i.e. it is
+// of an integer or string type.
+func isValidHeaderLabel(key any) bool {
+	switch key.(type) {
+	case int, int8, int16, int32, int64, uint, uint8, uint16, uint32, uint64, string:
+		return true
+	}
+	return false
 }
 
 // generateUnprotectedHeaders creates Unprotected Headers of the COSE envelope
